@@ -919,7 +919,10 @@ class Driver:
             worst = max(worst, d / tol)
             if d > tol:
                 ok = False
-        self.margins.append(worst)
+        stale = (kind in CONSUMERS and mesh_fp != fp) or \
+            (kind == "rdq" and self.book.rd.get(id(getattr(ph, "_random_displacements", None))) != state_fingerprint(ph, ("fc", "mass")))
+        if not stale:  # (an answer from a superseded holder is judged by TLC, not by the tolerance self-check)
+            self.margins.append(worst)
         ev["qok"] = ok
         ev["qmargin"] = worst
 
